@@ -389,6 +389,11 @@ pub enum WriteAdapter {
 
 #[derive(Debug, Clone, PartialEq, Eq, Serialize, Deserialize)]
 pub struct WritePlan {
+    /// Does the sink implement `write_vectored` natively (like a socket or a
+    /// fixed buffer), accepting bytes across the buffers offered? Otherwise the
+    /// std default applies (only the first non-empty buffer is offered to `write`).
+    #[serde(default)]
+    pub vectored: bool,
     pub adapter: WriteAdapter,
     /// Cyclic per-call cap (>= 1). Empty = accept everything offered.
     pub accepts: Vec<u16>,
@@ -399,6 +404,7 @@ pub struct WritePlan {
 impl WritePlan {
     pub fn benign() -> WritePlan {
         WritePlan {
+            vectored: false,
             adapter: WriteAdapter::Direct,
             accepts: vec![],
             interrupts: Interrupts::None,
@@ -416,6 +422,8 @@ pub enum WriteAnswer {
 }
 
 pub struct SimWriter {
+    vectored: bool,
+    pub vectored_calls: u64,
     pub delivered: Vec<u8>,
     accepts: Vec<u16>,
     interrupts: Interrupts,
@@ -434,6 +442,8 @@ pub struct SimWriter {
 impl SimWriter {
     pub fn new(plan: &WritePlan) -> SimWriter {
         SimWriter {
+            vectored: plan.vectored,
+            vectored_calls: 0,
             delivered: Vec::new(),
             accepts: plan.accepts.iter().map(|c| (*c).max(1)).collect(),
             interrupts: plan.interrupts.clone(),
@@ -532,6 +542,18 @@ impl io::Write for SimWriter {
         self.delivered.extend_from_slice(&buf[..n]);
         self.last_answer = Some(WriteAnswer::Accepted(n));
         Ok(n)
+    }
+
+    fn write_vectored(&mut self, bufs: &[io::IoSlice<'_>]) -> io::Result<usize> {
+        self.vectored_calls += 1;
+        if self.vectored {
+            // a native gather write: the same script applied to the concatenation
+            let all: Vec<u8> = bufs.iter().flat_map(|b| b.iter().copied()).collect();
+            self.write(&all)
+        } else {
+            let first = bufs.iter().find(|b| !b.is_empty()).map_or(&[][..], |b| &**b);
+            self.write(first)
+        }
     }
 
     fn flush(&mut self) -> io::Result<()> {
